@@ -48,6 +48,7 @@ def gen_cases(ctx):
         per = ctx.scale(110, 6000)
     for i in range(per):
         rng = ctx.rng(1, i)
+        pe, ne = gen.exponents(rng)
         case = {
             "i": i, "stream": ctx.spec.get("stream", ctx.shard),
             "seed": int(rng.integers(1 << 31)),
@@ -57,8 +58,7 @@ def gen_cases(ctx):
             "tex": str(rng.choice(gen.TEXTURE_KINDS)),
             "vol": str(rng.choice(gen.VOLUME_KINDS)),
             "Lkind": str(rng.choice(gen.L_KINDS)),
-            "p": float(rng.uniform(1, 2)) if rng.random() < 0.8 else float(rng.choice([1.0, 1.5, 2.0])),
-            "nexp": float(rng.uniform(2, 5)) if rng.random() < 0.8 else float(rng.choice([2.0, 3.5, 5.0])),
+            "p": pe, "nexp": ne,
             "lam": float(rng.uniform(0, 10)) if rng.random() < 0.7 else float(rng.choice([0.0, 5.0, 10.0])),
             "M": float(rng.uniform(0, 200)) if rng.random() < 0.7 else float(rng.choice([0.0, 125.0, 200.0])),
             "phi": float(rng.uniform(0.05, 1.0)) if rng.random() < 0.7 else 1.0,
